@@ -15,8 +15,10 @@ pub struct Clause {
 #[derive(Debug, Default, Clone)]
 pub struct LoopSpec {
     pub invariant: Vec<Clause>,
+    pub invariant_except_break: Vec<Clause>,
     pub ensures: Vec<Clause>,
     pub decreases: Option<String>,
+    pub body: Vec<GhostStmt>,
 }
 
 #[derive(Debug, Default, Clone)]
@@ -43,6 +45,8 @@ pub struct FnSpec {
     pub noextract_body: bool, // keep signature only? (unused)
     pub entry: Vec<GhostStmt>,
     pub props: Vec<String>,
+    pub retype: Vec<(String, String)>,
+    pub traitimpl: Option<String>,
 }
 
 #[derive(Debug, Default, Clone)]
@@ -87,6 +91,8 @@ pub struct Unit {
     pub dropcall: Vec<String>,
     pub puremethods: Vec<String>,
     pub lockinv: Vec<(String, String)>,
+    pub poolcall: Vec<(String, String, String)>,
+    pub unit_types: Vec<String>,
 }
 
 fn indent_of(l: &str) -> usize {
@@ -199,12 +205,17 @@ fn parse_fn(head: &str, body: &[String]) -> FnSpec {
         let (word, variants) = split_variant(&word);
         match word.as_str() {
             "as" => f.rename = Some(rest),
+            "traitimpl" => f.traitimpl = Some(rest),
             "param" => f.params.push(rest),
             "self" => f.selfkind = Some(rest),
             "returns" => f.ret_name = Some(rest),
             "poolpath" => f.poolpath = Some(rest),
             "attr" => f.attrs.push(rest),
             "props" => f.props = rest.split_whitespace().map(|s| s.to_string()).collect(),
+            "retype" => {
+                let (n, t) = rest.split_once(':').expect("retype needs type");
+                f.retype.push((n.trim().to_string(), t.trim().to_string()));
+            }
             "requires" => f.requires.extend(parse_clauses(&sub, variants)),
             "ensures" => f.ensures.extend(parse_clauses(&sub, variants)),
             "entry" => f.entry.push(GhostStmt { text: block_text(&sub), variants }),
@@ -221,8 +232,10 @@ fn parse_fn(head: &str, body: &[String]) -> FnSpec {
                     let (w2, v2) = split_variant(&w2);
                     match w2.as_str() {
                         "invariant" => ls.invariant.extend(parse_clauses(&sub2, v2)),
+                        "invariant_except_break" => ls.invariant_except_break.extend(parse_clauses(&sub2, v2)),
                         "ensures" => ls.ensures.extend(parse_clauses(&sub2, v2)),
                         "decreases" => ls.decreases = Some(r2),
+                        "body" => ls.body.push(GhostStmt { text: block_text(&sub2), variants: v2 }),
                         _ => panic!("unknown loop sub-directive {w2}"),
                     }
                 }
@@ -315,6 +328,8 @@ pub fn parse_unit(text: &str) -> Unit {
             "dropcall" => u.dropcall.extend(words),
             "puremethods" => u.puremethods.extend(words),
             "variants" => {}
+            "unittypes" => u.unit_types.extend(words),
+            "poolcall" => u.poolcall.push((words[0].clone(), words[1].clone(), words[2].clone())),
             "lockinv" => u.lockinv.push((words[0].clone(), words[1..].join(" "))),
             "verbatim" => u.verbatim.push((variants, block_text(&body))),
             "struct" => u.structs.push(parse_struct(&rest, &body)),
